@@ -141,6 +141,10 @@ func onlyWriters(w *World, rel, typ, field string, allowed map[string]bool) stri
 
 // runLockset turns the engine's findings into obligations.
 func runLockset(w *World, r *Report, rule string, guards []*guardSpec, doc string, floor int) *locksetEngine {
+	return runLocksetX(w, r, rule, guards, nil, doc, floor)
+}
+
+func runLocksetX(w *World, r *Report, rule string, guards []*guardSpec, extra func(fn *ssa.Function, ins ssa.Instruction) (string, string, string, bool), doc string, floor int) *locksetEngine {
 	r.Rule(rule, doc, floor)
 	// resolve the table: every owner type and field must exist
 	for _, g := range guards {
@@ -173,6 +177,7 @@ func runLockset(w *World, r *Report, rule string, guards []*guardSpec, doc strin
 		}
 	}
 	e := newLocksetEngine(w, guards)
+	e.extra = extra
 	fs := e.findings(nil)
 	bad := map[string]bool{}
 	for _, f := range fs {
@@ -188,7 +193,7 @@ func runLockset(w *World, r *Report, rule string, guards []*guardSpec, doc strin
 				r.Notes = append(r.Notes, "exception for "+akey+" switched off: "+why)
 			}
 		}
-		if q.Access == "read" && !e.sharedWrite[q.Field] && !strings.HasPrefix(q.Lock, "<none>") && e.byField[q.Field] != nil {
+		if q.Access == "read" && !e.sharedWrite[q.Field] && !strings.HasPrefix(q.Lock, "<none>") && e.byField[q.Field] != nil && extra == nil {
 			r.exempt(rule, key, q.Where, "immutable after construction: no write to "+q.Field+" exists outside a constructor (checked on this run)")
 			continue
 		}
